@@ -80,6 +80,10 @@ CLAIMS = {
   text="TLC enumerates SMT-LIB scripts as S-expressions by construct family x syntactic variant (parallel/nested/shadowing let, binders, define-fun with static scoping and capture situations, numerals under different logics, literals in every notation, indexed operators, chainable/pairwise/left-/right-assoc operators, arrays, strings, annotations, push/pop, declare-sort/define-sort, OMT commands, malformed variants, truncations); the real SmtLibParser reads their text; TLC elaborates the same S-expressions with the SMT-LIB semantics of SmtLibSyntax.tla and validates: commands one-to-one, same sort and same value of every returned term under every interpretation, ill-formed text rejected, accepted-today baseline still accepted.",
   note="SmtLibSyntax.tla elaboration; spec/gen/accept_baseline.json generated from the repaired tree; four genuine defects are recorded as known findings (sequential let, capture, undeclared symbol as string, duplicate let binder)",
   tech=TECH + "TLC-enumerated SMT-LIB scripts parsed by pySMT, results validated by TLC against an SMT-LIB semantics in TLA+", ref="DESIGN.md 3 C08"),
+ "C09": dict(
+  text="TLC-generated formulas (incl. variants with symbol names that need quoting) are printed as SMT-LIB scripts (tree and DAG) and parsed back in the same environment; TLC-generated scripts (Gen_Sx) are parsed, re-serialised and parsed again; formulas are serialised to the human-readable syntax and parsed back. TLC validates: the re-parsed formula is the very same object (a constant-array literal comes back as the equivalent chain of stores, AsStores); the two command lists are identical up to the fresh names of definition parameters; the HR round trip preserves type and meaning (Eval) and changes at most the grouping of n-ary operators.",
+  note="non-Boolean terms t are round-tripped inside t = t; scripts with commands pySMT cannot serialise and formulas the HR parser rejects are outside the property",
+  tech=TECH + "TLC-generated formulas/scripts round-tripped through the real printers and parsers, results validated by TLC", ref="DESIGN.md 3 C09"),
 }
 NA_REASON = "check under construction in this round (planned with the same TLA+/TLC technique, see DESIGN.md)"
 
